@@ -12,6 +12,8 @@ C15 - property theorems over the object-level model (Lib/Heap.lean).
 -/
 import DimModel.Lib.Heap
 import DimModel.Proofs.C15
+import DimModel.Lib.HeapX
+import DimModel.Proofs.C15X
 namespace DimModel
 namespace Heap
 
@@ -193,6 +195,116 @@ example : (run St.init (exOps.take 2)).env = [7, 9] ∧
     WF (run St.init (exOps.take 2)).h :=
   ⟨by rfl, by rfl, (wf_run St.init (exOps.take 2) (by intro o ho; cases ho) (by intro r hr; cases hr)
     (by intro r hr; cases hr) (by simp [exOps, OpOK])).1⟩
+
+/-! ### the extended operation set (Lib/HeapX.lean): swapaxes, rollaxis, T, newaxis, position slices, sum over an
+axis, a + b, reindex_axis - FRAME and SHARING -/
+
+/-- every operation of the extended set only allocates (`T` of a rank-0 array allocates nothing: it returns the operand) -/
+theorem xapply_extends (h : H) (env : List Ref) (x : XOp) (h' : H) (r : Ref)
+    (hop : xapply h env x = some (h', r)) : ∃ new, h' = h ++ new ∧ r < h'.length := by
+  obtain ⟨⟨new, hn⟩, hr⟩ := xapply_grows hop
+  exact ⟨new, hn, hr⟩
+
+/-- NO OPERATION OF THE EXTENDED SET CHANGES AN OPERAND (or any other live array) -/
+theorem xnonmut_frame (s : St) (x : XOp) (hwf : WF s.h) (henv : EnvOK s) (hnm : xisMut x = false)
+    (q : Ref) (hq : q ∈ s.env) :
+    obsArr (xstep s x).h q = obsArr s.h q := by
+  obtain ⟨v, w, sh, ax, t, hx⟩ := henv q hq
+  exact obsArr_grows hwf (xstep_nonmut_grows hnm).1 (lt_of_get hx)
+
+/-- ... along every history of such operations -/
+theorem xnonmut_history_frame (s : St) (xs : List XOp) (hwf : WF s.h) (henv : EnvOK s)
+    (hnm : ∀ x ∈ xs, xisMut x = false) (q : Ref) (hq : q ∈ s.env) :
+    obsArr (xrun s xs).h q = obsArr s.h q := by
+  obtain ⟨v, w, sh, ax, t, hx⟩ := henv q hq
+  exact obsArr_grows hwf (xrun_nonmut_grows xs hnm) (lt_of_get hx)
+
+/-- SHARING, transpose (hence swapaxes / rollaxis / T of rank 1, 2): the result is a new array object over THE SAME
+value buffer and THE SAME Axis objects (permuted), with a new metadata dict -/
+theorem transpose_shares (h h' : H) (r r' : Ref) (perm : List Nat) (v : Ref) (w sh : List Nat) (ax : List Ref) (t : Ref)
+    (hx : h[r]? = some (.arr v w sh ax t)) (hop : transpose h r perm = some (h', r')) :
+    ∃ w' sh' t', h'[r']? = some (.arr v w' sh' (perm.map fun k => ax.getD k 0) t') ∧ h.length ≤ t' ∧ h.length ≤ r' :=
+  transpose_result hx hop
+
+theorem swapaxes_shares (h h' : H) (r r' : Ref) (a b : Nat) (v : Ref) (w sh : List Nat) (ax : List Ref) (t : Ref)
+    (hx : h[r]? = some (.arr v w sh ax t)) (hop : swapaxes h r a b = some (h', r')) :
+    ∃ w' sh' t', h'[r']? = some (.arr v w' sh' ((swapPerm sh.length a b).map fun k => ax.getD k 0) t') ∧
+      h.length ≤ t' ∧ h.length ≤ r' := by
+  unfold swapaxes at hop
+  rw [hx] at hop
+  simp only [] at hop
+  split at hop
+  · cases hop
+  · exact transpose_result hx hop
+
+theorem rollaxis_shares (h h' : H) (r r' : Ref) (d : Nat) (v : Ref) (w sh : List Nat) (ax : List Ref) (t : Ref)
+    (hx : h[r]? = some (.arr v w sh ax t)) (hop : rollaxis h r d = some (h', r')) :
+    ∃ w' sh' t', h'[r']? = some (.arr v w' sh' ((d :: (List.range sh.length).filter (· != d)).map fun k => ax.getD k 0) t') ∧
+      h.length ≤ t' ∧ h.length ≤ r' := by
+  unfold rollaxis at hop
+  rw [hx] at hop
+  simp only [] at hop
+  split at hop
+  · cases hop
+  · exact transpose_result hx hop
+
+/-- `T` of a rank-0 array IS the operand (no new object at all) -/
+theorem tT_rank0_same (h h' : H) (r r' : Ref) (v : Ref) (w : List Nat) (ax : List Ref) (t : Ref)
+    (hx : h[r]? = some (.arr v w [] ax t)) (hop : tT h r = some (h', r')) : h' = h ∧ r' = r := by
+  unfold tT at hop
+  rw [hx] at hop
+  simp only [List.length_nil, Option.some.injEq, Prod.mk.injEq] at hop
+  exact ⟨hop.1.symm, hop.2.symm⟩
+
+/-- newaxis: the same value buffer seen through the same view (a size-1 dimension inserted), a new metadata dict -/
+theorem newaxis_shares_values (h h' : H) (r r' : Ref) (name : String) (pos : Nat) (v : Ref) (w sh : List Nat)
+    (ax : List Ref) (t : Ref) (hx : h[r]? = some (.arr v w sh ax t)) (hop : newaxis h r name pos = some (h', r')) :
+    ∃ ax' t', h'[r']? = some (.arr v w (sh.take pos ++ [1] ++ sh.drop pos) ax' t') ∧ h.length ≤ t' :=
+  newaxis_result hx hop
+
+/-- sum over an axis: a NEW value buffer (the first object allocated), the remaining Axis objects THE SAME objects -/
+theorem reduceSum_shares_axes (h h' : H) (r r' : Ref) (d : Nat) (v : Ref) (w sh : List Nat) (ax : List Ref) (t : Ref)
+    (hx : h[r]? = some (.arr v w sh ax t)) (hop : reduceSum h r d = some (h', r')) :
+    ∃ w' t', h'[r']? = some (.arr h.length w' (sh.eraseIdx d) (ax.eraseIdx d) t') ∧ h.length ≤ t' :=
+  reduceSum_result hx hop
+
+/-- WRITE-THROUGH: two arrays over one buffer whose views both show cell `c` (the result of transpose / swapaxes / T /
+squeeze / newaxis / a[:] / take(scalar) and its operand): a value written through one at its position of `c` is read
+by the other at its position of `c` -/
+theorem write_through_view (h : H) (r r' v : Ref) (w sh : List Nat) (ax : List Ref) (t : Ref)
+    (w' sh' : List Nat) (ax' : List Ref) (t' : Ref) (cells : List Int) (c p p' : Nat) (x : Int)
+    (hr : h[r]? = some (.arr v w sh ax t)) (hr' : h[r']? = some (.arr v w' sh' ax' t'))
+    (hb : h[v]? = some (.buf cells)) (hc : c < cells.length) (hp' : w'[p']? = some c) (hp : w[p]? = some c) :
+    ∃ o, obsArr (mutate h r' (.setVal p' x)) r = some o ∧ o.values[p]? = some x :=
+  write_through_view_aux x hr hr' hb hc hp' hp
+
+/-- the hypothesis "same buffer" of `write_through_view` is needed: through a position slice (a copy) nothing shows -/
+theorem write_through_view_counterexample :
+    (xrun St.init [.base (.create [2] [10, 11] [("x", [5, 3], [])] []), .sliceRange 0 0 0 2 1,
+        .base (.mut 1 (.setVal 0 (-1)))]).obs.map (fun o => o.map (·.values)) = [some [10, 11], some [-1, 11]] := by
+  rfl
+
+/-- NO WRITE-THROUGH where the value buffer of the result is new (position slices, take(list), a + k, a + b, sum,
+sort_axis, reindex_axis, copy): a value written through the result is invisible to every array that existed -/
+theorem fresh_values_independent (h h' : H) (r' v : Ref) (w sh : List Nat) (ax : List Ref) (t : Ref) (hwf : WF h)
+    (hg : ∃ new, h' = h ++ new) (hx : h'[r']? = some (.arr v w sh ax t)) (hv : h.length ≤ v) (p : Nat) (x : Int)
+    (q : Ref) (hq : q < h.length) : obsArr (mutate h' r' (.setVal p x)) q = obsArr h q :=
+  fresh_values_aux hwf hg hx hv p x hq
+
+/-- the prediction on a concrete history: `b = a.T` writes through (cell (0,1) of b is cell (1,0) of a), `c = a.sum(axis=0)`
+shares the Axis object of `y` with `a` (renaming it through `c` renames it in `a` and in `b`) but not the values -/
+example : ((xrun St.init [.base (.create [2, 2] [1, 2, 3, 4] [("x", [5, 3], []), ("y", [0, 1], [])] []), .tT 0, .reduceSum 0 0,
+      .base (.mut 1 (.setVal 1 (-7))), .base (.mut 2 (.setVal 0 99)), .base (.mut 2 (.rename 0 "q"))]).obs.map
+      fun o => o.map fun a => (a.values, a.axes.map (·.name))) =
+    [some ([1, 2, -7, 4], ["x", "q"]), some ([1, -7, 2, 4], ["q", "x"]), some ([99, 6], ["q"])] := by
+  rfl
+
+/-- ... and what the harness observes with np.shares_memory / `is` on it: a.T shares values and both Axis objects (crosswise)
+with a; the sum shares the Axis object `y` (dimension 1 of a, dimension 0 of a.T) and no values -/
+example : ((xrun St.init [.base (.create [2, 2] [1, 2, 3, 4] [("x", [5, 3], []), ("y", [0, 1], [])] []), .tT 0,
+      .reduceSum 0 0]).share.map fun o => o.map fun s => (s.i, s.j, s.vals, s.axes)) =
+    [some (0, 1, true, [(0, 1), (1, 0)]), some (0, 2, false, [(1, 0)]), some (1, 2, false, [(0, 0)])] := by
+  rfl
 
 end Heap
 end DimModel
